@@ -1,2 +1,7 @@
 import BufrProps.C02
 #print axioms Bufr.C02.C02_single_subset_not_compressed
+#print axioms Bufr.C02.C02_numeric_column
+#print axioms Bufr.C02.C02_plan_sound
+#print axioms Bufr.C02.C02_fallback
+#print axioms Bufr.C02.C02_flag
+#print axioms Bufr.C02.C02_same_value_function
